@@ -92,6 +92,20 @@ func render(pl plug, calls []call, reserve bool) map[string]string {
 		if universe == 2 {
 			ptr = "" // by value: minted names are taken from the name of a named first argument
 		}
+		if universe == 3 && pl.name == "equal" {
+			// arities: A and B stand for the two-argument and the curried one-argument form over *A, C and D for the
+			// same over *B (one name used with a list of one and a list of two types is a conflict like any other)
+			base := map[string]string{"A": "A", "B": "A", "C": "B", "D": "B"}[c.typ]
+			if c.late {
+				x = "deriveCloneOf" + base + "(x)"
+			}
+			if c.typ == "B" || c.typ == "D" {
+				fmt.Fprintf(&srcs[c.file], "func f%d(x, y *%s) bool {\n\treturn %s(%s)(y)\n}\n\n", i, base, c.name, x)
+			} else {
+				fmt.Fprintf(&srcs[c.file], "func f%d(x, y *%s) bool {\n\treturn %s(%s, y)\n}\n\n", i, base, c.name, x)
+			}
+			continue
+		}
 		switch pl.name {
 		case "equal":
 			fmt.Fprintf(&srcs[c.file], "func f%d(x, y %s%s) bool {\n\treturn %s(%s, y)\n}\n\n", i, ptr, tn(c.typ), c.name, x)
@@ -176,7 +190,9 @@ func descr(pl plug, calls []call, flags []string, reserve bool) string {
 	if reserve {
 		r = " +user " + pl.prefix + "_"
 	}
-	if universe != 0 {
+	if universe == 3 && pl.name == "equal" {
+		r += " [types: A=(*A, *A) B=(*A) curried C=(*B, *B) D=(*B) curried]"
+	} else if universe != 0 && universe != 3 {
 		r += fmt.Sprintf(" [types: A=%s B=%s C=%s D=%s]", tn("A"), tn("B"), tn("C"), tn("D"))
 	}
 	return fmt.Sprintf("%v %s%s", flags, strings.Join(ss, " "), r)
@@ -379,7 +395,7 @@ func TestProp(t *testing.T) {
 											continue
 										}
 										// each case runs in one of the three type universes, another one under another seed
-										universe = int((int64(idx/c.NShards) + c.Seed) % 3)
+										universe = int((int64(idx/c.NShards) + c.Seed) % 4)
 										if universe < 0 {
 											universe = 0
 										}
@@ -428,7 +444,7 @@ func TestProp(t *testing.T) {
 	// random larger packages with injected collisions
 	c.Check(t, func(rt *rapid.T) {
 		pl := plugs[rapid.IntRange(0, len(plugs)-1).Draw(rt, "plugin")]
-		universe = rapid.IntRange(0, 2).Draw(rt, "universe")
+		universe = rapid.IntRange(0, 3).Draw(rt, "universe")
 		k := rapid.IntRange(4, 9).Draw(rt, "k")
 		calls := make([]call, k)
 		names := []string{"", "A", "B", "Other", "Fifth", "X"}
